@@ -304,12 +304,30 @@ pub fn semantic_corruption(g: &mut Gen, cfg: &PicCfg, aim: &Aim) -> (Vec<u8>, &'
                 Some((a, b)) => (a * b).min(400),
                 None => 20,
             };
-            let style = g.below(4);
+            let style = g.below(5);
             for i in 0..n {
                 w.put_bit(false); // COD
                 w.put_code("1"); // MCBPC: INTER, no chroma
                 w.put_code("11"); // CBPY (inter sense): no luma
                 for _comp in 0..2 {
+                    if style == 4 && g.chance(1, 3) {
+                        // a code of the Table D.3 *form* that is longer than any valid one: 10 to 20
+                        // (bit, continue) pairs - all zero, all one or mixed - then a terminator
+                        let pairs = g.range(10, 20) as usize;
+                        let fill = g.below(3);
+                        w.put_bit(false);
+                        for _ in 0..pairs {
+                            w.put_bit(match fill {
+                                0 => false,
+                                1 => true,
+                                _ => g.bool(),
+                            });
+                            w.put_bit(true);
+                        }
+                        w.put_bit(g.bool());
+                        w.put_bit(false);
+                        continue;
+                    }
                     let v: i32 = match style {
                         0 => 4095,
                         1 => -4095,
